@@ -109,9 +109,13 @@ def _toCSSname(DOMname):
 # used for CSSStyleDeclaration to check if allowed properties
 # but somehow doubled, any better way?
 CSS2Properties._properties = []
+# DOMname -> CSSname it was generated from (``_toCSSname`` is not an inverse
+# of ``_toDOMname`` for e.g. 'overflow-x')
+_DOMtoCSSnames = {}
 for group in css_parser.profiles.properties:
     for name in css_parser.profiles.properties[group]:
         CSS2Properties._properties.append(_toDOMname(name))
+        _DOMtoCSSnames[_toDOMname(name)] = name
 
 
 # add CSS2Properties to CSSStyleDeclaration:
@@ -120,7 +124,7 @@ def __named_property_def(DOMname):
     Closure to keep name known in each properties accessor function
     DOMname is converted to CSSname here, so actual calls use CSSname.
     """
-    CSSname = _toCSSname(DOMname)
+    CSSname = _DOMtoCSSnames.get(DOMname, _toCSSname(DOMname))
 
     def _get(self): return self._getP(CSSname)
 
